@@ -497,7 +497,7 @@ func genCodecOpKind(op int) codecOp {
 					return "", err
 				}
 				d := describe(y)
-				return fmt.Sprintf("%x %s", ref.Canon(d.val), d.str), nil
+				return fmt.Sprintf("%x %s", ref.Canon(d.val), canonStr(d)), nil
 			})
 		}}
 	default:
@@ -512,7 +512,7 @@ func genCodecOpKind(op int) codecOp {
 					return "", err
 				}
 				d := describe(y)
-				return fmt.Sprintf("%x %s", ref.Canon(d.val), d.str), nil
+				return fmt.Sprintf("%x %s", ref.Canon(d.val), canonStr(d)), nil
 			})
 		}}
 	}
@@ -585,6 +585,16 @@ func RunC18(cfg simrt.Config, o world.Opts) *world.Result {
 		res.Sample = lines
 	}
 	return res
+}
+
+// canonStr is the description of a decoded value that could not be serialised again: its
+// Go value printed canonically (String() is not a function of the value when a map has several
+// NaN keys).
+func canonStr(d genOutcome) string {
+	if d.str == "" || d.obj == nil {
+		return d.str
+	}
+	return goCanon(reflect.ValueOf(d.obj))
 }
 
 // (A) codec isolation
